@@ -12,7 +12,11 @@ CONSTANTS
   PhaseMaps <- Ph1
   ReKVals <- NoReK
   MaxHist = 0
-  Configs <- CfgMixQ
+  NameMap <- NmId
+  PForms <- PfPlain
+  Containers <- CtList
+  OvKVals <- Ov3
+  Configs <- CfgFeedsQ
   Comp <- CompDef
 INVARIANT FreeVsInlinedAgree
 INVARIANT ConfigOnlyChangesFreeSymbols
